@@ -2,14 +2,14 @@
 EXTENDS ApiGen
 Q(n, d) == Norm(n, d)
 B(lb, ub) == Lit("bounds", <<lb, ub>>, <<2>>)
-(* C12: parameters.  A float-initialised Parameter, a Parameter initialised from a NumPy integer, and a
+(* C12: parameters.  A float-initialised Parameter, a second Parameter of the same name initialised from a NumPy integer, and a
    VectorParameter initialised from an integer list (its elements are reached by index); every artefact built
    from them must follow later updates, whole-vector (VectorParameter.set) or per element. *)
 MC_BaseCalls == <<
     Call("MkVar", 0, 0, "continuous", B(NoneQ, NoneQ), 0, 0, 0, "s"),
     Call("MkVec", 0, 0, "continuous", B(NoneQ, NoneQ), 2, 0, 0, "x"),
     Call("MkPar", 0, 0, "", LitS("float", Q(3, 2)), 1, 0, 0, "p"),
-    Call("MkPar", 0, 0, "", LitS("npi64", Q(2, 1)), 2, 0, 0, "q"),
+    Call("MkPar", 0, 0, "", LitS("npi64", Q(2, 1)), 2, 0, 0, "p"),      \* a second Parameter object with the SAME name (parameters hash and compare by name)
     Call("MkVPar", 0, 0, "", Lit("arri", <<Q(3,1), Q(1,1)>>, <<2>>), 3, 2, 0, "v"),
     Call("Index", 5, 0, "", NoLit, 0, 0, 0, ""),
     Call("Index", 5, 0, "", NoLit, -1, 0, 0, ""),
@@ -33,6 +33,7 @@ MC_Stages == <<>>
 MC_FinalEn == {}
 MC_SingValues == {}
 MC_Want == {"D", "H", "V"}
+MC_WantV == {"V"}
 MC_WantD == {"D"}
 MC_WantDV == {"D", "V", "V3"}
 MC_WantH == {"D", "H", "V"}
